@@ -177,13 +177,27 @@ func genC14(kind string, seed int64) *c14Case {
 				tl = append(tl, fresh)
 			}
 			tl = append(tl, excWide, broad, tail)
+			c.Edits = []string{"exception-replaced-and-moved"}
+			if dst%2 == 0 {
+				// Variant: exception and broad entry are both deleted, the
+				// wider exception is inserted further down, and an
+				// unrelated line in front of them really moves (behind
+				// lines it has nothing in common with).
+				net2 := "10.1.2.0 " + strings.Fields(net)[1]
+				m := fmt.Sprintf("%s udp %s %s", y, h(3), net2)
+				p1 := fmt.Sprintf("%s tcp %s %s", y, h(1), net2)
+				p2 := fmt.Sprintf("%s tcp %s %s", y, h(2), net2)
+				tail2 := fmt.Sprintf("%s ip %s %s", x, anyW, anyW)
+				dl = []string{m, exc, broad, p1, p2, tail2}
+				tl = []string{p1, p2, m, excWide, tail2}
+				c.Edits = []string{"exception-and-broad-deleted-behind-moved-line"}
+			}
 			a.Lines = dl
 			for _, ta := range t.ACLs {
 				if ta.Name == a.Name {
 					ta.Lines = tl
 				}
 			}
-			c.Edits = []string{"exception-replaced-and-moved"}
 		}
 	} else {
 		// Several interacting line edits inside the longest ACL.
